@@ -19,6 +19,9 @@ structure Ctl where
   log : List String := []      -- newest first
   -- open text node accumulator: (start, end, text type, bytes)
   textAcc : Option (Nat × Nat × TextType × Bytes) := none
+  /-- fail at the n-th handle_token call (1-based; 0 = never) -/
+  failAt : Nat := 0
+  tokensSeen : Nat := 0
   deriving Inhabited
 
 def nsNum : Ns → Nat | .html => 0 | .svg => 1 | .mathml => 2
@@ -66,6 +69,8 @@ def ctl : Controller Ctl :=
       let it := c.item
       ({ c with k := c.k + 1, log := s!"he:{lnStr name}" :: c.log }, Flags.ofNat it.1)
     token := fun c t =>
+      let c := { c with tokensSeen := c.tokensSeen + 1 }
+      if c.failAt != 0 && c.tokensSeen == c.failAt then (c, { chunks := [], err := some .handler }) else
       match t with
       | .text b tt last src =>
         let acc := match c.textAcc with
@@ -78,7 +83,7 @@ def ctl : Controller Ctl :=
       | t => ({ c with log := tokenStr t :: c.log }, { chunks := [t.raw] })
     shouldEmit := fun _ => true
     handleEnd := fun c => (c, [], none)
-    bailOut := fun c _ => (c, []) }
+    bailOut := fun c _ => (c, [[33]]) }
 
 def world : World Ctl := ⟨Gen.Syntax.table, Gen.Tags.cfg, ctl⟩
 
@@ -136,13 +141,11 @@ def runChunks (rw : Rewriter Ctl) (chunks : List Bytes) : RunOut := Id.run do
     | .panicUseAfterError => results := results ++ ["uae"]
   return ⟨results, outs, rw⟩
 
-def run (line : String) : String :=
-  match line.splitOn " " with
-  | [hex, cuts, strict, init, script] =>
+def runWith (hex cuts strict init script : String) (failAt : Nat) (cfg : Settings) : String :=
     match ofHex hex, parseNatList cuts, init.toNat?, parseScript script with
     | some input, some cuts, some init, some script =>
-      let c : Ctl := { script := script, init := init }
-      let rw : Rewriter Ctl := { stream := Stream.new world c { strict := strict == "1" } }
+      let c : Ctl := { script := script, init := init, failAt := failAt }
+      let rw : Rewriter Ctl := { stream := Stream.new world c { cfg with strict := strict == "1" } }
       let out := runChunks rw (splitAtCuts input cuts)
       let c := out.rw.stream.disp.ctl
       let log := match c.textAcc with
@@ -152,6 +155,22 @@ def run (line : String) : String :=
       else
         let evs := if log.isEmpty then "-" else ";".intercalate log.reverse
         s!"{";".intercalate out.results} # {";".intercalate out.outs} # {evs}"
+    | _, _, _, _ => "bad-case"
+
+def run (line : String) : String :=
+  match line.splitOn " " with
+  | [hex, cuts, strict, init, script] => runWith hex cuts strict init script 0 {}
+  | _ => "bad-case"
+
+/-- lane `fault`: `<lex case> <failAt> <graceful bits mem=2,handler=1> <maxmem 0=unlimited> <prealloc>` -/
+def runFault (line : String) : String :=
+  match line.splitOn " " with
+  | [hex, cuts, strict, init, script, failAt, g, maxMem, prealloc] =>
+    match failAt.toNat?, g.toNat?, maxMem.toNat?, prealloc.toNat? with
+    | some failAt, some g, some maxMem, some prealloc =>
+      runWith hex cuts strict init script failAt
+        { bailOnMem := g / 2 % 2 == 1, bailOnHandler := g % 2 == 1,
+          maxMem := if maxMem == 0 then 1000000000 else maxMem, prealloc := prealloc }
     | _, _, _, _ => "bad-case"
   | _ => "bad-case"
 
